@@ -60,11 +60,11 @@ def configs(tier, seed):
                 for solver, iters, cut in plan:
                     heavy = iters >= 3 or sizes != (2, 2, 2)
                     cfgs.append(dict(name="cold:%s:%s:%s:%s:i%d:c%s" % (zname, fam, sizes, solver, iters, cut), kind="cold", zeros=zname, fam=fam,
-                                     sizes=sizes, solver=solver, iters=iters, cut=cut, core=not heavy, cost=20 if heavy else 4, timeout=900))
+                                     sizes=sizes, solver=solver, iters=iters, cut=cut, core=not heavy, cost=20 if heavy else 4, timeout=900 if tier == "thorough" else 200))
             for hname in HISTORIES:
                 for solver in ("MD_step", "IG", "RDA"):
                     cfgs.append(dict(name="warm:%s:%s:%s:%s" % (zname, hname, sizes, solver), kind="warm", zeros=zname, hist=hname, sizes=sizes,
-                                     solver=solver, iters=1, cut=None, cost=8, timeout=900))
+                                     solver=solver, iters=1, cut=None, cost=8, timeout=900 if tier == "thorough" else 300))
     return cfgs
 
 
@@ -121,7 +121,9 @@ def scenario_for(cfg):
             name, opts = estim.solver_options(V, cfg["solver"])
             model = eng.estimate(ms, total=N, engine=name, options=opts)
             zero_obligations(V, T, model, dom, attrs, N, zspec, "")
-            estim.model_answers(V, T, model, dom, attrs, N, "valid:", tuples=[("a",), ("b", "c"), ("a", "c")])
+            if cfg["iters"] == 1 or cfg["solver"].startswith("MD"):
+                # coherence of the returned pair is C08's subject; it is repeated here only where it is cheap
+                estim.model_answers(V, T, model, dom, attrs, N, "valid:", tuples=[("a",), ("b", "c"), ("a", "c")])
         else:
             eng = mbi.FactoredInference(dom, iters=cfg["iters"], structural_zeros=zcopy, warm_start=True)
             for k, fam in enumerate(HISTORIES[cfg["hist"]]):
